@@ -14,9 +14,9 @@ LEVEL = {'C11': 'exploration', 'C12': 'exploration', 'C15': 'exploration',
 
 PLANS = {
     'C16': {'quick': [('seq', 2500), ('threads', 2500),
-                      ('threads_toggle', 1500)],
+                      ('threads_toggle', 1500), ('long', 250)],
             'thorough': [('seq', 60000), ('threads', 70000),
-                         ('threads_toggle', 50000)]},
+                         ('threads_toggle', 50000), ('long', 6000)]},
     'C12': {'quick': [('seq', 2500), ('threads', 2500)],
             'thorough': [('seq', 60000), ('threads', 80000)]},
     'C15': {'quick': [('seq', 3000), ('threads', 2000), ('boot', 48)],
@@ -32,12 +32,10 @@ CATALOGUE = {}
 PRISTINE = {}
 
 
-def prepare(check, tier, plan):
-    """Build the catalogue and fetch the pristine results (once, in the
-    parent, before the worker pool is forked)."""
+def _prepare_job(check, tier):
+    """Runs in a forked child: catalogue generation calls the library."""
     seed = core.base_seed()
     cat, twins = gen_b.build_catalogue(check, seed, CAT_SIZE[tier])
-    CATALOGUE[check] = cat
     uniq = {}
     for op in cat + twins:
         if 'family' in op:
@@ -49,14 +47,25 @@ def prepare(check, tier, plan):
         res = P.results(list(uniq.values()))
     finally:
         P.close()
+    res['__constants__'] = world_b.constants_snapshot()
+    return cat, res
+
+
+def prepare(check, tier, plan):
+    """Build the catalogue and fetch the pristine results once, before the
+    pool is forked - in a child, so that this process (the ancestor of every
+    run) never calls the library itself."""
+    cat, res = core.in_child(_prepare_job, check, tier)
+    CATALOGUE[check] = cat
     PRISTINE.clear()
     PRISTINE.update(res)
-    PRISTINE['__constants__'] = world_b.constants_snapshot()
     return len(cat), len(res)
 
 
-def ensure_pristine(trace):
-    """Replay path: fetch pristine results for the ops of one trace."""
+_CLIENT = [None]
+
+
+def _needed(trace):
     need = {}
     for prog in trace.get('threads', []) + [trace.get('ops', [])]:
         for op in prog:
@@ -64,8 +73,7 @@ def ensure_pristine(trace):
             if k in ('marshal', 'construct', 'unmarshal', 'enc', 'dec',
                      'remarshal'):
                 if 'family' in op:
-                    core_op = json.loads(op['family'])
-                    need.setdefault(op['family'], core_op)
+                    need.setdefault(op['family'], json.loads(op['family']))
                     continue
                 need.setdefault(ops.op_key(op), gen_b.op_core(op))
                 if k == 'construct':
@@ -74,14 +82,27 @@ def ensure_pristine(trace):
                 if k == 'unmarshal':
                     t = {'op': 'remarshal', 'b': op['b']}
                     need.setdefault(ops.op_key(t), t)
-    missing = {k: v for k, v in need.items() if k not in PRISTINE}
+    return need
+
+
+def ensure_pristine(trace):
+    """Fetch pristine results for ops of a trace that are not known yet
+    (replay and shrinking).  Talks to the pristine server processes only;
+    never calls the library in this process."""
+    if trace.get('population') == 'sweep':
+        return
+    missing = {k: v for k, v in _needed(trace).items() if k not in PRISTINE}
     if missing:
         from sim.pristine import Pristine
-        P = Pristine(2 if len(missing) < 50 else 8)
-        try:
-            PRISTINE.update(P.results(list(missing.values())))
-        finally:
-            P.close()
+        if _CLIENT[0] is None:
+            import atexit
+            _CLIENT[0] = Pristine(4)
+            atexit.register(_CLIENT[0].close)
+        PRISTINE.update(_CLIENT[0].results(list(missing.values())))
+
+
+def pre_execute(check, trace):
+    ensure_pristine(trace)
 
 
 def generate(check, population, rng, tier):
@@ -98,9 +119,8 @@ def generate(check, population, rng, tier):
 
 
 def execute(check, trace, keep_log=False):
-    if trace.get('population') != 'sweep':
-        # (the integer sweep is judged by the ladder model alone)
-        ensure_pristine(trace)
+    # (the integer sweep is judged by the ladder model alone)
+    ensure_pristine(trace)
     if trace.get('population') == 'boot':
         return execute_boot(check, trace)
     return world_b.execute(trace, PROPS[check], PRISTINE, keep_log)
@@ -274,7 +294,7 @@ def shrink(check, trace, cls, vbuf=None, max_execs=1500):
             return False
         state['n'] += 1
         try:
-            res = execute(check, t)
+            res = core.isolated_execute('sim.check_b', check, t)
         except Exception:
             return False
         v = res['violation']
